@@ -33,7 +33,7 @@ func runC18(c *Ctx) {
 		_, fmtFn, _ := printfFormatter(c.P)
 		return fmtFn != nil && strings.Contains(o.Key, shortName(fmtFn))
 	}, func(s *Ctx) { indexGuards(s, "R6") })
-	defer c.shared("R11", "C17/R3", "%s and %v are replaced by the rendering print gives the argument: the container renderer writes the documented pieces only (an element has the rendering it has on its own)", keyHas("render-write"), runC17)
+	defer c.shared("R11", "C17/R3", "%s and %v are replaced by the rendering print gives the argument: the container renderer writes the documented pieces only (an element has the rendering it has on its own)", keyHas("render-write", "cycle-guard"), runC17)
 	defer c.shared("R8", "C09/R3", "an argument of the wrong kind is an error: the copy made when arguments are evaluated keeps the kind (a regex stays a regex, so %%s rejects it)", keyHas("copy Value"), c09R3)
 	defer c.shared("R7", "C17/R2", "%f is replaced by the rendering of the number: String() and the renderer produce FormatFloat(x, 'f', -1, 64) and nothing else (no integer fast path)", ruleIs("R2"), runC17)
 	defer c.shared("R6", "C08/R4", "each directive shows the value its argument had when it was evaluated: call arguments (printf's included) are evaluated into cells of their own, so a later argument's side effect cannot change an earlier one", keyHas("call-arguments-copied"), c08R4)
@@ -293,6 +293,7 @@ func runC18(c *Ctx) {
 	// R3 padding-guards
 	c.note("R3 padding-guards: every strings.Repeat(pad, n) in printf has n = width - len(s) under the facts width > 0 and len(s) < width (left padding: Repeat + s), or n = -width - len(s) under width < 0 and len(s) < -width (right padding: s + Repeat); the pad string is \"0\" exactly when the width text's first byte is '0', else \" \".")
 	nRep := 0
+	padVals := map[ssa.Value][]string{}
 	width := "phi(0 | int(strconv.ParseInt(*lang.checkArg(args, 0, ValueStr)#0.Str[(φint0 + 1):φint], 10, 64)#0))"
 	for _, call := range callsIn(pf) {
 		f := call.Common().StaticCallee()
@@ -340,6 +341,17 @@ func runC18(c *Ctx) {
 		// pad string
 		pad := sh(call.Common().Args[0])
 		c.check(pad == `phi(" " | "0")`, "R3", key+" pad", p.InstrPos(call), `" " or "0"`, "the pad string is "+pad)
+		padVals[call.Common().Args[0]] = append(padVals[call.Common().Args[0]], key)
+	}
+	// one pad choice for every directive: the six sites repeat the same value (the merge selected by the
+	// width text alone) — a directive that re-decides the pad (spaces for a non-number, say) uses another
+	if nRep > 0 {
+		var groups []string
+		for _, ks := range padVals {
+			groups = append(groups, strings.Join(ks, "+"))
+		}
+		sort.Strings(groups)
+		c.check(len(padVals) == 1, "R3", "pad-choice-shared", p.Pos(pf.Pos()), "all padding sites repeat the one pad string chosen from the width text", fmt.Sprintf("the padding sites use %d different pad values (%s): a directive re-decides the pad string after the width text has selected it, so a width written with a leading 0 is not zero-filled for every directive and argument", len(padVals), strings.Join(groups, " | ")))
 	}
 	c.check(nRep == 6, "R3", "repeat-count", p.Pos(pf.Pos()), "6 padding sites (3 directives x 2 signs)", fmt.Sprintf("%d padding sites found, 6 expected (%%s, %%f, %%v x left, right)", nRep))
 	// pad "0" exactly under numStr[0] == '0'
